@@ -1079,7 +1079,7 @@ CORPUS = [
     "SELECT first ( account ) , last ( account ) , min ( month ) , max ( month ) FROM #t",
     "SELECT year , sum ( month ) FROM #t GROUP BY year ORDER BY sum ( month )",
 ]
-DOUBLE_EDIT_MAXLEN = 8
+DOUBLE_EDIT_MAXLEN = 5
 
 
 def ngram_texts(n):
